@@ -1,4 +1,5 @@
 (* Extraction of the executable model and specification of C15 (ExtrOcamlBasic only). *)
-From MptV Require Import Base.Mem C15.RefcountModel C15.RefcountSpec.
+From MptV Require Import Base.Mem C15.RefcountModel C15.RefcountSpec C15.ChainModel C15.ChainSpec.
 Require Import ExtrOcamlBasic.
-Extraction "c15_model.ml" mrun srun init sinit leaked sleaked crun scrun.
+Extraction "c15_model.ml" mrun srun init sinit leaked sleaked crun scrun
+  nrun csrun ninit csinit nleaked csleaked.
